@@ -263,7 +263,8 @@ class Float(Domain):
             if random_state is None:
                 random_state = np.random
             log_items = random_state.uniform(logmin, logmax, size=size)
-            items = np.exp(log_items)
+            # Clip, since exp(log(x)) can lie outside [lower, upper] by round-off
+            items = np.clip(np.exp(log_items), domain.lower, domain.upper)
             return _sanitize_sample_result(items, domain)
 
     # Transform is -log(1 - x)
@@ -281,7 +282,7 @@ class Float(Domain):
             if random_state is None:
                 random_state = np.random
             log_items = random_state.uniform(logmin, logmax, size=size)
-            items = -np.expm1(-log_items)
+            items = np.clip(-np.expm1(-log_items), domain.lower, domain.upper)
             return _sanitize_sample_result(items, domain)
 
     class _Normal(Normal):
